@@ -390,7 +390,8 @@ theorem resolve_sound_selfcontained (env : Env) (fuel : Nat) (root : NodeId) (ba
 
 /-- D, in general.  Assumption (`LoaderFresh`, the model's "fresh nodes per document"): the Loader's
     documents share no schema object with the root document or with each other.  Then every `$ref` of
-    `root.all()` (and, as its initial lexical target, every `$dynamicRef`) has a recorded target, and it
+    `root.all()` (and, as its initial lexical target, every `$dynamicRef` — when the root document is read under
+    2020-12, `rs.draft = .d2020`: under draft-07 `$dynamicRef` is an unknown keyword and is not resolved) has a recorded target, and it
     is the designated one among the documents the resolution
     touched (`docs`: the root document with the retrieval URI `b`, and Loader documents, each with the
     URI it was loaded from): the reference is resolved against the base URI of its schema; the
@@ -404,7 +405,8 @@ theorem resolve_sound (env : Env) (fuel : Nat) (root : NodeId) (base : String) (
       ∀ id ∈ allNodes env.st (env.st.size + 2) [root], ∀ n, env.st.get? id = some n →
         (n.ref ≠ "" → ∃ info t, lookupNat id rs.infos = some info ∧ info.resolvedRef = some t ∧
           DesignatesAmong docs ⟨env.st, rs.draft, root⟩ b id n.ref t) ∧
-        (n.dynamicRef ≠ "" → ∃ info t, lookupNat id rs.infos = some info ∧ info.resolvedDynamicRef = some t ∧
+        (rs.draft = .d2020 → n.dynamicRef ≠ "" →
+          ∃ info t, lookupNat id rs.infos = some info ∧ info.resolvedDynamicRef = some t ∧
           DesignatesAmong docs ⟨env.st, rs.draft, root⟩ b id n.dynamicRef t) := by
   obtain ⟨s, b, d, rets, hb, hret, _, _, hg, hok⟩ := resolve_G env fuel root base rs hfresh h
   refine ⟨b, docsOf env rets s, hb, ?_, ?_⟩
@@ -419,8 +421,8 @@ theorem resolve_sound (env : Env) (fuel : Nat) (root : NodeId) (base : String) (
       have := gDesig_among env rets s _ id n.ref t hdes
       rw [show (⟨env.st, rs.draft, root⟩ : Doc).root = root from rfl, hret] at this
       exact ⟨info, t, hi, ht, this⟩
-    · intro hne
-      obtain ⟨info, t, hi, ht, hdes⟩ := h2 hne
+    · intro h20 hne
+      obtain ⟨info, t, hi, ht, hdes⟩ := h2 h20 hne
       have := gDesig_among env rets s _ id n.dynamicRef t hdes
       rw [show (⟨env.st, rs.draft, root⟩ : Doc).root = root from rfl, hret] at this
       exact ⟨info, t, hi, ht, this⟩
@@ -598,22 +600,23 @@ error — every reference designating something ⇒ success (`resolve_complete_s
 section completeness
 open Spec RComp
 
-/-- Without a Loader: if some `$ref` or `$dynamicRef` of `root.all()` designates no subschema of the document
-    (`b` = the parsed BaseURI option), Schema.Resolve does not succeed; it returns an error for every positive
+/-- Without a Loader: if some `$ref` or — the document being read under 2020-12, `topDraft env root = .d2020`; under
+    draft-07 a `$dynamicRef` is an unknown keyword and may dangle — some `$dynamicRef` of `root.all()` designates no
+    subschema of the document (`b` = the parsed BaseURI option), Schema.Resolve does not succeed; it returns an error for every positive
     fuel (never a panic, never another target). -/
 theorem dangling_ref_is_error (env : Env) (hl : env.loader = none) (fuel : Nat) (root : NodeId) (base : String)
     (id : NodeId) (n : Node) (hid : id ∈ allNodes env.st (env.st.size + 2) [root]) (hn : env.st.get? id = some n)
     (hdang : ∀ b, retrievalOf base = .ok b →
       (n.ref ≠ "" ∧ ¬ ∃ t, (topDoc env root).Designates b id n.ref t) ∨
-      (n.dynamicRef ≠ "" ∧ ¬ ∃ t, (topDoc env root).Designates b id n.dynamicRef t)) :
+      (topDraft env root = .d2020 ∧ n.dynamicRef ≠ "" ∧ ¬ ∃ t, (topDoc env root).Designates b id n.dynamicRef t)) :
     (∀ rs, Go.resolve env fuel root base ≠ .ok rs) ∧ (1 ≤ fuel → Go.resolve env fuel root base = .err) := by
   have hno : ∀ rs, Go.resolve env fuel root base ≠ .ok rs := by
     intro rs h
     obtain ⟨b, hb, hall⟩ := resolve_designates_noloader env hl fuel root base rs h
     obtain ⟨h1, h2⟩ := hall id hid n hn
-    rcases hdang b hb with ⟨hne, hnot⟩ | ⟨hne, hnot⟩
+    rcases hdang b hb with ⟨hne, hnot⟩ | ⟨h20, hne, hnot⟩
     · exact hnot (h1 hne)
-    · exact hnot (h2 hne)
+    · exact hnot (h2 h20 hne)
   refine ⟨hno, fun hfuel => ?_⟩
   cases hr : Go.resolve env fuel root base with
   | ok rs => exact absurd hr (hno rs)
@@ -810,7 +813,7 @@ theorem dg_dangling : ¬ ∃ t, (topDoc dgEnv 0).Designates {} 7 "#bar" t := by
         rw [this] at hn
         exact (Option.some.inj hn).symm
       subst hn7
-      exact ⟨fun _ => h7, fun hne => absurd rfl hne⟩
+      exact ⟨fun _ => h7, fun _ hne => absurd rfl hne⟩
     · apply hrest id _ n hn
       simp only [List.mem_cons, List.mem_nil_iff, or_false] at hid ⊢
       rcases hid with h0 | h0 | h0 | h0 | h0 | h0 | h0 | h0
@@ -927,15 +930,15 @@ theorem ex_universe : UniverseOk exEnv 0 .d2020 {} where
         · have : exStore.get? 0 = some { id := "http://a/root.json", allOf := some [1, 2] } := rfl
           rw [this] at hn'
           rw [← Option.some.inj hn']
-          exact ⟨fun h => absurd rfl h, fun h => absurd rfl h⟩
+          exact ⟨fun h => absurd rfl h, fun _ h => absurd rfl h⟩
         · have : exStore.get? 1 = some { ref := "other.json#/$defs/x" } := rfl
           rw [this] at hn'
           rw [← Option.some.inj hn']
-          exact ⟨fun _ => checkRefOut_sound exEnv 0 {} _ {} 1 _ [1] 3 [] 4 (by decide +kernel), fun h => absurd rfl h⟩
+          exact ⟨fun _ => checkRefOut_sound exEnv 0 {} _ {} 1 _ [1] 3 [] 4 (by decide +kernel), fun _ h => absurd rfl h⟩
         · have : exStore.get? 2 = some { ref := "other.json" } := rfl
           rw [this] at hn'
           rw [← Option.some.inj hn']
-          exact ⟨fun _ => checkRefOut_sound exEnv 0 {} _ {} 2 _ [2] 3 [] 3 (by decide +kernel), fun h => absurd rfl h⟩ }
+          exact ⟨fun _ => checkRefOut_sound exEnv 0 {} _ {} 2 _ [2] 3 [] 3 (by decide +kernel), fun _ h => absurd rfl h⟩ }
   docs := by
     intro tbl u r htbl hk hfr
     rw [ex_tbl tbl htbl] at hk
@@ -956,11 +959,11 @@ theorem ex_universe : UniverseOk exEnv 0 .d2020 {} where
           · have : exStore.get? 3 = some { defs := some [("x", 4)] } := rfl
             rw [this] at hn'
             rw [← Option.some.inj hn']
-            exact ⟨fun h => absurd rfl h, fun h => absurd rfl h⟩
+            exact ⟨fun h => absurd rfl h, fun _ h => absurd rfl h⟩
           · have : exStore.get? 4 = some { type := "string" } := rfl
             rw [this] at hn'
             rw [← Option.some.inj hn']
-            exact ⟨fun h => absurd rfl h, fun h => absurd rfl h⟩ }
+            exact ⟨fun h => absurd rfl h, fun _ h => absurd rfl h⟩ }
   coherent := by
     have htop : ∀ key, (⟨exEnv.st, .d2020, 0⟩ : Doc).Identifies {} key 0 → key = "" ∨ key = "http://a/root.json" := by
       intro key h
